@@ -89,7 +89,8 @@ impl EliasFano {
         }
 
         let n = values.len();
-        let universe = values[n - 1] + 1; // Exclusive upper bound
+        // Exclusive upper bound (saturates when the sequence contains u64::MAX)
+        let universe = values[n - 1].saturating_add(1);
 
         // Compute optimal split: lower_bits = max(0, floor(log2(u/n)))
         let lower_bits = if universe <= n as u64 {
@@ -212,7 +213,7 @@ impl EliasFano {
     /// O(log n) using binary search.
     #[must_use]
     pub fn contains(&self, value: u64) -> bool {
-        if self.is_empty() || value >= self.universe {
+        if self.is_empty() {
             return false;
         }
 
